@@ -8,6 +8,11 @@ Walks the AST of every ``*.py`` under ``$VERIF_REPO/src/mopidy`` and emits, for 
 The result is rendered as ``Edges_gen.v`` (``Definition sites : list site``); the
 wait-for edges of the Coq development are ``filter is_blocking sites``.
 
+Bounded waits (a ``timeout=`` argument other than the literal ``None``, or a blocking
+construct inside ``try: .. except (pykka.)Timeout``) are emitted as ``BlockingTimeout``: still a
+wait-for edge for the rank check, but the GstThread -> Core end-of-track callback site must be
+an unbounded ``Blocking`` (``callback_unbounded_b``).
+
 Fail-closed rules
 -----------------
 * a blocking construct whose receiver cannot be classified  -> awaited = ``Unknown``
@@ -172,6 +177,7 @@ class _FileScan(ast.NodeVisitor):
         self.cls = []
         self.fn = []
         self.consumed = set()
+        self.timeout_try = 0
         self.local_classes = {n.name: n for n in ast.walk(tree) if isinstance(n, ast.ClassDef)}
 
     # -- context -----------------------------------------------------------------------
@@ -333,7 +339,32 @@ class _FileScan(ast.NodeVisitor):
         return any("Actor" in (_dotted(b) or "") for b in cdef.bases)
 
     # -- the rules -------------------------------------------------------------------------
+    def bounded(self, node):
+        """The wait at this call is bounded: a timeout= argument other than the literal None, or
+        the call sits in the body of a try whose handlers catch (pykka.)Timeout."""
+        t = _kw(node, "timeout") if isinstance(node, ast.Call) else None
+        if t is not None and not (isinstance(t, ast.Constant) and t.value is None):
+            return True
+        return self.timeout_try > 0
+
+    def visit_Try(self, node):
+        catches = any(
+            h.type is not None and any((_dotted(n) or "").split(".")[-1] == "Timeout"
+                                        for n in ([h.type] if not isinstance(h.type, ast.Tuple) else h.type.elts))
+            for h in node.handlers)
+        self.timeout_try += int(catches)
+        for st in node.body:
+            self.visit(st)
+        self.timeout_try -= int(catches)
+        for part in (node.handlers, node.orelse, node.finalbody):
+            for st in part:
+                self.visit(st)
+
+    visit_TryStar = visit_Try
+
     def emit(self, kind, awaited, node, construct):
+        if kind == "Blocking" and self.bounded(node):
+            kind, construct = "BlockingTimeout", construct + " timeout"
         for w in self.waiters():
             if w == "Listeners":
                 # code of listener.send: executed by every sender; expanded by the caller
@@ -497,7 +528,7 @@ class Translation:
         for rel, tree in trees.items():
             _FileScan(rel, tree, self).visit(tree)
         # expand listener.send: each XListener.send(..) site inherits the constructs of send()
-        blocking_in_send = [c for c in self.listener_send_constructs if c[0] == "Blocking"]
+        blocking_in_send = [c for c in self.listener_send_constructs if c[0] in ("Blocking", "BlockingTimeout")]
         tells_in_send = [c for c in self.listener_send_constructs if c[0] == "Tell"]
         kind = "Blocking" if blocking_in_send or not tells_in_send else "Tell"
         if not self.listener_send_constructs and self.listener_send_sites:
@@ -510,7 +541,11 @@ class Translation:
 
     # -- views -------------------------------------------------------------------------------
     def edges(self):
-        return [s for s in self.sites if s[2] == "Blocking"]
+        """Wait-for edges: unbounded and bounded waits alike (a timed wait still blocks)."""
+        return [s for s in self.sites if s[2] in ("Blocking", "BlockingTimeout")]
+
+    def callback_sites(self):
+        return [s for s in self.edges() if s[0] == "GstThread" and s[1] == "Core"]
 
     def edge_pairs(self):
         return sorted({(s[0], s[1]) for s in self.edges()})
